@@ -1,13 +1,13 @@
 #!/bin/bash
-# tools_seed_r4.sh <ID> <k> [PROP-to-check ...]: verify round-4 seeded change /tmp/seed4/<ID>-out/m<k> against the checks named (default: its own property);
+# tools_seed_r4.sh <ID> <k> [PROP-to-check ...]: verify round-4 seeded change ${SEED_ROOT:-/tmp/seed4}/<ID>-out/m<k> against the checks named (default: its own property);
 # writes .work-sv-<ID>-m<k>-<PROP>.json; stops at the first check that catches it
 id=$1; k=$2; shift 2
 props="$@"; [ -z "$props" ] && props=$id
 cd /verif
 first=1
 for p in $props; do
-  out=.work-sv-$id-m$k-$p.json
-  if [ $first = 1 ]; then python3 tools_seed_verify.py /tmp/seed4/$id-out/m$k $p > $out 2>&1; else python3 tools_seed_verify.py /tmp/seed4/$id-out/m$k $p --skip-suite > $out 2>&1; fi
+  out=.work-sv${SEED_TAG:-}-$id-m$k-$p.json
+  if [ $first = 1 ]; then python3 tools_seed_verify.py ${SEED_ROOT:-/tmp/seed4}/$id-out/m$k $p > $out 2>&1; else python3 tools_seed_verify.py ${SEED_ROOT:-/tmp/seed4}/$id-out/m$k $p --skip-suite > $out 2>&1; fi
   first=0
   if grep -q '"caught": true' $out; then echo "$id m$k caught by $p"; exit 0; fi
 done
